@@ -117,6 +117,10 @@ def inRangeRev (k s e : Bytes) : Bool := Bytes.le e k && (s.isEmpty || Bytes.lt 
 /-- plain half-open interval of encoded keys (no empty-end convention) -/
 def inInterval (x lo hi : Bytes) : Bool := Bytes.le lo x && Bytes.lt x hi
 
+/-- wire form of a region bound as PD / TiKV report it: empty stays empty (unbounded), anything else is the
+    memcomparable encoding -/
+def encRegionBound (x : Bytes) : Bytes := if x.isEmpty then [] else Codec.encodeBytes x
+
 /-- membership of an encoded key in a region `[rs, re)` given in encoded space (`re = []` = +∞) -/
 def inRegion (x rs re : Bytes) : Bool := Bytes.le rs x && (re.isEmpty || Bytes.lt x re)
 
